@@ -8,7 +8,7 @@ want = sys.argv[2:]
 os.makedirs('/tmp/props', exist_ok=True)
 seeds = {}
 for d in sorted(os.listdir('/verif/seeded')):
-    m = re.match(r'^(C\d\d)[a-z]?-(.*)$', d)
+    m = re.match(r'^(C\d\d)[a-z]*-(.*)$', d)
     if m:
         seeds.setdefault(m.group(1), []).append(m.group(2).replace('-', ' '))
 tmpl = open('/verif/tools/seed_prompt_template.txt').read()
